@@ -1564,6 +1564,10 @@ func (iqr *IQR) CreateStatsResults(bucketHolderArr []*structs.BucketHolder, meas
 	errIndex := 0
 
 	for i, bucketHolder := range bucketHolderArr {
+		if len(bucketHolder.IGroupByValues) < len(aggGroupByCols) {
+			return fmt.Errorf("IQR.CreateStatsResults: bucket %v has %v group-by values for %v group-by columns",
+				i, len(bucketHolder.IGroupByValues), len(aggGroupByCols))
+		}
 		for idx, aggGroupByCol := range aggGroupByCols {
 			colCValue := bucketHolder.IGroupByValues[idx]
 			knownValues[aggGroupByCol][i] = colCValue
